@@ -1378,6 +1378,13 @@ impl ParserState {
         self.with_items_limit(self.limits.step_max_items, "ff_tokens", |s| {
             while let Some(b) = s.forced_byte() {
                 debug!("  forced: {:?} 0x{:x}", b as char, b);
+                // Every forced byte counts towards the step limit; otherwise a grammar
+                // that keeps forcing bytes inside one lexeme (no new rows, hence no new
+                // items) would loop here forever with unbounded memory.
+                s.stats.all_items += 1;
+                if s.stats.all_items > s.max_all_items {
+                    break;
+                }
                 if b == TokTrie::SPECIAL_TOKEN_MARKER {
                     assert!(!s.has_pending_lexeme_bytes());
                     let specs = s.token_range_lexemes();
